@@ -246,7 +246,7 @@ LATENCIES = [1, 2, 3, 4, 5, 6, 7, 8, 9, 12, 15, 16, 17, 24, 31, 32, 33, 50, 63, 
 class Prop(PropBase):
     ID = "C32"
     tiers = {
-        "quick": {"runs": 700, "selftest_runs": 4},
+        "quick": {"runs": 700, "selftest_runs": 4, "run_budget_s": 120},
         "thorough": {"runs": 16000, "selftest_runs": 32},
     }
     rule = ("one run = one measurer class (FIFO / WideFIFO / Tagged) in one configuration (ways 1-4, slots 1-8, "
